@@ -13,6 +13,7 @@ from autoarray.mask.mask_2d import Mask2D
 from autoarray.structures.abstract_structure import Structure
 from autoarray.structures.arrays.uniform_2d import Array2D
 from autoconf import cached_property
+from autoconf.tools.decorators import cached_property_names
 
 
 logger = logging.getLogger(__name__)
@@ -153,6 +154,10 @@ class AbstractDataset:
 
     def trimmed_after_convolution_from(self, kernel_shape) -> "AbstractDataset":
         dataset = copy.copy(self)
+
+        # cached quantities (grids, convolver, w_tilde ...) describe the untrimmed data
+        for name in cached_property_names(type(dataset)):
+            dataset.__dict__.pop(name, None)
 
         dataset.data = dataset.data.trimmed_after_convolution_from(
             kernel_shape=kernel_shape
